@@ -58,6 +58,20 @@ async fn cross_view(seq: &mut Seq, rep: &mut EpReport, after: &str) {
     if all_subs != model_subs {
         rep.viol("C11", "C11:Q-view:subscriptions-differ-from-model", format!("after {}: ListSubscriptions reports {:?}, model {:?}", after, all_subs, model_subs));
     }
+    // every subscription of the model can be read back, with the topic it reports in the listing
+    for (name, want_topic) in &model_subs {
+        match cx.get_sub(name).await {
+            Ok(v) => {
+                let want_dl = seq.m.subs[name].deadline_s as i32;
+                if v.topic != *want_topic || v.deadline_s != want_dl || v.name != *name {
+                    rep.viol("C11", "C11:Q-view:get-differs-from-model", format!("after {}: GetSubscription({}) = {:?}, model topic {:?} deadline {}", after, short(name), v, want_topic, want_dl));
+                }
+            }
+            Err(e) => {
+                rep.viol("C11", format!("C11:Q-view:get-fails:code={}", e.code() as i32), format!("after {}: GetSubscription({}) fails with {} although the subscription exists (topic {:?})", after, short(name), e.message(), want_topic));
+            }
+        }
+    }
     let mut live_topics: Vec<String> = Vec::new();
     for pr in ["projects/p1", "projects/p2"] {
         if let Ok((ts, _)) = cx.list_topics(pr, 1000, "").await {
